@@ -271,6 +271,34 @@ theorem assoc_no_use_after_free (exp : Nat) (z : UInt64) (isb : Nat → Bool) (o
   have hz : s.map.nul = z := hz
   exact ⟨s, os, hr, hz ▸ hi.log_ok⟩
 
+/-- **C14 (a handle is never free for reuse while still in the table)**.  Every `create_unit` /
+`free_unit` event of the log records how many elements of the unit table hold the handle at the
+instant of the callback.  In every legal run (`CountOK`): when `create_unit` returns `u`, and when
+`free_unit` is called with `u`, the table holds `u` exactly as often as there are *other*
+outstanding units with that handle (created, not yet passed to `free_unit` — non-zero only when
+pools share one handle for a work unit).  So the runtime maps a handle only after `create_unit`
+returned it and has already unmapped it when it hands it to `free_unit`: at no instant is a handle
+that its pool may recycle still present in the table.  For handles that are not shared the
+recorded multiplicity is 0 at every callback (second part). -/
+theorem assoc_handle_unmapped_when_recyclable (exp : Nat) (z : UInt64) (isb : Nat → Bool) (ops : List Op)
+    (hl : LegalRun (St.init exp z isb) ops) :
+    ∃ s os, runOps (St.init exp z isb) ops = some (s, os) ∧ CountOK z s.log ∧
+      ∀ u, u ≠ z → crT s.log u = frT s.log u + (if (UnitMap.absMap s.map u).isSome then 1 else 0) := by
+  obtain ⟨s, os, hr, hi, hz⟩ := run_spec ops _ (ainv_init exp z isb) hl
+  have hz : s.map.nul = z := hz
+  exact ⟨s, os, hr, hz ▸ hi.count_ok, fun u hu => hi.cnt u (by rw [hz]; exact hu)⟩
+
+/-- reading `CountOK` for one event: a `free_unit(p, u)` that is the only outstanding unit with that
+handle happens with `u` absent from the table; a `create_unit` result that no outstanding unit
+uses is absent from the table -/
+theorem countOK_free_absent (z : UInt64) (p : Nat) (u : UInt64) (n : Nat) (r : List Ev)
+    (h : CountOK z (.free p u n :: r)) (hone : crT r u = frT r u + 1) : n = 0 := by
+  simp only [CountOK] at h; omega
+
+theorem countOK_create_absent (z : UInt64) (p t : Nat) (u : UInt64) (m : Nat) (r : List Ev)
+    (h : CountOK z (.create p t u m :: r)) (hu : u ≠ z) (hnone : crT r u = frT r u) : m = 0 := by
+  simp only [CountOK] at h; have := h.1 hu; omega
+
 /-- **C14 (failure rollback)**.  If `ABTI_thread_set_associated_pool` fails (the new pool's
 `create_unit` returned NULL → ABT_ERR_OTHER, or the table could not allocate → ABT_ERR_MEM)
 every descriptor keeps its unit and pool, the table is unchanged, and the only calls made are
@@ -323,8 +351,8 @@ example :
       [.init 7 1 0x100 true, .setPool 7 2 0x100 true, .lookup (.user 0x100), .setPool 7 1 0x100 false,
        .lookup (.user 0x100), .unset 7]).map (fun r => (r.2, r.1.log.reverse))
       = some ([.rc .ok, .rc .ok, .thread 7, .rc .ok, .thread 7, .done],
-              [.create 1 7 0x100, .create 2 7 0x100, .free 1 0x100, .create 1 7 0x100, .free 2 0x100,
-               .free 1 0x100]) := by
+              [.create 1 7 0x100 0, .create 2 7 0x100 1, .free 1 0x100 1, .create 1 7 0x100 1, .free 2 0x100 1,
+               .free 1 0x100 0]) := by
   decide
 
 /-- non-vacuity: create in user pool 1, push to user pool 2 (create new, free old), a failing
@@ -334,7 +362,7 @@ example :
       [.init 7 1 0x100 true, .use 7, .setPool 7 2 0x4000 true, .lookup (.user 0x4000), .setPool 7 1 7 true,
        .setPool 7 0 7 true, .unset 7]).map (fun r => (r.2, r.1.log.reverse))
       = some ([.rc .ok, .done, .rc .ok, .thread 7, .rc .other, .rc .ok, .done],
-              [.create 1 7 0x100, .use 1 0x100, .create 2 7 0x4000, .free 1 0x100, .create 1 7 7, .free 2 0x4000]) := by
+              [.create 1 7 0x100 0, .use 1 0x100, .create 2 7 0x4000 0, .free 1 0x100 0, .create 1 7 7 0, .free 2 0x4000 0]) := by
   decide
 
 end assoc
